@@ -39,7 +39,7 @@ def plan(tier, seed):
             if i % 6 == 5:
                 s["long"] = True
                 s["n"] = 40
-    return specs
+    return common.add_m9_shard(specs, tier)
 
 
 def gates(tier):
@@ -266,4 +266,6 @@ def run_long(case, ctx, cfg, obj, V):
 
 
 def run(spec, ctx):
+    if spec.get("m9"):
+        return common.run_m9(spec, ctx)
     common.loop(spec, ctx, gen_case, run_case)
